@@ -1029,9 +1029,19 @@ impl Entry {
                     .filter_map(|c| c.as_token().map(|t| t.text()))
                     .collect::<String>();
                 let formatted = format_value(self.key().as_ref().unwrap(), &concat);
-                crate::lex::lex_inline(&formatted)
-                    .map(|(k, t)| (k, t.to_string()))
-                    .collect::<Vec<_>>()
+                // The formatter returns the value, one logical line per line: every line is value text (the
+                // lexer would take a line that is not indented for a field name or a comment)
+                let mut tokens = vec![];
+                for (i, line) in formatted.split('\n').enumerate() {
+                    if i > 0 {
+                        tokens.push((NEWLINE, "\n".to_string()));
+                    }
+                    let line = line.trim_start_matches([' ', '\t']);
+                    if !line.is_empty() {
+                        tokens.push((VALUE, line.to_string()));
+                    }
+                }
+                tokens
             } else {
                 content
                     .into_iter()
